@@ -16,7 +16,7 @@ RULE = {"C19": "four helpers, each driven by random sample sequences under the p
 REQUIRED = {"C19": {"toggle-edge-flip": 2000, "toggle-held-no-flip": 2000, "toggle-on-off-pair": 500, "toggle-real-joystick-case": 20,
                     "toggle-debounce-flip": 300, "toggle-debounce-suppressed-edge": 100,
                     "debouncer-true": 1000, "debouncer-suppressed-press": 1000, "debouncer-required-true": 300, "debouncer-exact-strict": 30,
-                    "filter-bypass-pass": 1000, "filter-low-pass": 500, "filter-low-suppressed": 1000,
+                    "filter-bypass-pass": 1000, "filter-low-pass": 500, "filter-low-suppressed": 1000, "filter-through-real-logger": 50,
                     "watchdog-expired": 500, "watchdog-not-expired": 500, "watchdog-exact-landing": 100, "watchdog-warning": 100,
                     "watchdog-warning-suppressed": 100}}
 ASSUMPTIONS = {"C19": ["a comparison landing exactly on the period is a tie unless every operand is exactly representable (1/64 s grid)",
@@ -269,10 +269,30 @@ def run_filter(acc, case):
         last_low_pass = None
         passes = 0
         acc.evaluations += 1
+        # half of the cases go through a real logging.Logger with the filter attached (the documented use)
+        real = case.get("real_logger")
+        if real:
+            import logging as _l
+            got = []
+
+            class H(_l.Handler):
+                def emit(h, record):  # noqa
+                    got.append(record)
+            lg = _l.Logger("vf-filter")       # not registered in the manager: no cross-case state
+            lg.setLevel(1)
+            lg.addHandler(H())
+            lg.addFilter(f)
+            old_disable = _l.root.manager.disable
+            _l.disable(_l.NOTSET)
         for i, (adv, level) in enumerate(case["records"]):
             ft.t += adv
-            rec = logging.LogRecord("x", level, "f", 1, "m", (), None)
-            v = f.filter(rec)
+            if real:
+                n0 = len(got)
+                lg.log(level, "m%d", i)
+                v = len(got) > n0
+            else:
+                rec = logging.LogRecord("x", level, "f", 1, "m", (), None)
+                v = f.filter(rec)
             acc.checks += 1
             if level >= bypass:
                 if not v:
@@ -290,8 +310,13 @@ def run_filter(acc, case):
                 acc.ev("filter-low-suppressed")
         if passes >= 2:
             acc.nontrivial.add(stable_hash(case))
+        if real:
+            acc.ev("filter-through-real-logger")
     finally:
         pf.time = real_time
+        if case.get("real_logger"):
+            import logging as _l2
+            _l2.disable(old_disable)
 
 
 # ----------------------------------------------------------------------------- SimpleWatchdog
@@ -431,7 +456,7 @@ def gen_case(rng, kind):
         for _ in range(rng.choice([30, 100, 300])):
             adv = rng.choice([0.0, 0.015625, 0.125, 0.25, 0.5, 1.0, period, period / 2, period * 2, rng.randrange(0, 256) / 64])
             recs.append([adv, rng.choice([logging.DEBUG, logging.INFO, logging.INFO, logging.WARN, logging.ERROR, 25, 35, logging.CRITICAL])])
-        return {"kind": "filter", "period": period, "bypass": bypass, "records": recs}
+        return {"kind": "filter", "period": period, "bypass": bypass, "records": recs, "real_logger": rng.random() < 0.5}
     # watchdog
     t = rng.choice([20000, 5000, 1001, 15724, 1000, rng.randrange(1000, 100000), rng.randrange(1000, 3000000)])
     ops = [["reset"]] if rng.random() < 0.9 else [["isExpired"], ["printIfExpired"], ["enable"]]
